@@ -63,12 +63,12 @@ let dump (c : cfg) (s : st) =
   List.iteri (fun i (t : trainst) ->
     let per = if t.tr_per = [] then "-" else String.concat "," (List.mapi (fun k v -> Printf.sprintf "f%d:%d" k (int_of_n v)) t.tr_per) in
     let dec = String.concat "," (List.mapi (fun k o -> match o with None -> "-" | Some v -> if k = 1 then string_of_int (int_of_z (s8 v)) else string_of_int (int_of_n v)) t.tr_dec) in
-    out (Printf.sprintf "tr t%d on=%s ori=%s step=%d fwd=%s ack=%d kmh=%d per=%s dec=%s" i (b01 t.tr_on) (if t.tr_left then "L" else "R")
+    out (Printf.sprintf "tr t%s on=%s ori=%s step=%d fwd=%s ack=%d kmh=%d per=%s dec=%s" (String.make (i + 1) '0') (b01 t.tr_on) (if t.tr_left then "L" else "R")
            (int_of_z t.tr_step) (b01 t.tr_fwd) (int_of_n t.tr_ack) (int_of_n t.tr_kmh) per dec);
     let (sl, left) = train_position c s (nat_of_int i) in
     let sg = if sl = [] then "-" else String.concat "," (List.map (fun g -> "g" ^ string_of_int (int_of_nat g)) sl) in
-    out (Printf.sprintf "pos t%d %d %s %s ontrack=%s" i (List.length sl) sg (if sl = [] then "-" else if left then "L" else "R") (b01 t.tr_on))) s.s_trains;
-  (let on = List.filter (fun x -> x <> "") (List.mapi (fun i (t : trainst) -> if t.tr_on then "t" ^ string_of_int i else "") s.s_trains) in
+    out (Printf.sprintf "pos t%s %d %s %s ontrack=%s" (String.make (i + 1) '0') (List.length sl) sg (if sl = [] then "-" else if left then "L" else "R") (b01 t.tr_on))) s.s_trains;
+  (let on = List.filter (fun x -> x <> "") (List.mapi (fun i (t : trainst) -> if t.tr_on then "t" ^ String.make (i + 1) '0' else "") s.s_trains) in
    out ("ontrack " ^ (if on = [] then "-" else String.concat "," on)));
   List.iteri (fun i (bc : board_cfg) ->
     match bc.bc_uid with
